@@ -27,16 +27,19 @@ def run(prog, chk):
         "the rtl flag of a rule is 'script/direction is RTL and no L bidi type in the pair'; pairs with both R and L bidi types never reach a rule (R05.6)",
         "pairs referencing glyphs outside the glyph set are skipped in all four extraction functions; v1 and v2 siblings agree on their skip conditions (R05.7)",
         "each split pair is stored into exactly one bucket: one append per yielded part, merged buckets are re-assigned with break after the first match, all four base/mark combinations are kept exactly once (R05.8)",
+        "kerning lookups are registered, per OpenType tag, for exactly the languages the feature file declares for that tag (flat per-tag table over all declared language systems, default ['dflt']) (R05.9, shared with C20)",
     ]
     chk.not_decided += ["what a shaper applies", "that common and script lookups never both hold the same glyph pair", "script / bidi classification of glyphs", "the kerning values themselves"]
-    r051(prog, chk)
-    r052(prog, chk)
-    r053(prog, chk)
-    r054(prog, chk)
-    r055(prog, chk)
-    r056(prog, chk)
-    r057(prog, chk)
-    r058(prog, chk)
+    chk.guard(r051, prog, chk)
+    chk.guard(r052, prog, chk)
+    chk.guard(r053, prog, chk)
+    chk.guard(r054, prog, chk)
+    chk.guard(r055, prog, chk)
+    chk.guard(r056, prog, chk)
+    chk.guard(r057, prog, chk)
+    chk.guard(r058, prog, chk)
+    from .c20 import r202
+    chk.guard(r202, prog, chk, "R05.9")
 
 
 # ----------------------------------------------------------------------------- R05.1
